@@ -6,6 +6,10 @@ CONSTANTS
   Stride = 7919
   Offset = 1
   NS1 = 120
+  MaxSuffixes = 32
+  MaxSuffixLen = 127
+  PtrLimit = 16384
+  ImplBug = "none"
   ObjDefect = "stale-rdlength"
 INIT MCInit
 NEXT MCNext
